@@ -36,7 +36,7 @@ def specs(tier):
                                 for cap_alias, post_old in ((False, "all"), (True, "all"), (False, "none")):
                                     idx = len(out)
                                     out.append({"kind": kind, "is_async": is_async, "dbc": dbc, "levels": levels,
-                                                "style": ("def", "lambda")[idx % 2],
+                                                "style": (("def", "lambda", "adef")[idx % 3] if is_async else ("def", "lambda")[idx % 2]),
                                                 "err": ("fac", "default", "cls", "inst")[(idx // 2) % 4] if post_old == "all" else "fac",
                                                 "cap_alias": cap_alias, "post_old": post_old})
     return out
